@@ -22,7 +22,7 @@ KeySet(c) == { c[i][1] : i \in 1..Len(c) }
 (* C06: the ordering contract.  `last` is an Option (key of the last       *)
 (* accepted call).  "insert" is the map form (duplicates are errors),      *)
 (* "add" the set form (a repeat is accepted and is a no-op).               *)
-OkRes == "ok"
+OkRes == [err |-> "none"]
 DupErr(k) == [err |-> "DuplicateKey", got |-> k]
 OooErr(p, k) == [err |-> "OutOfOrder", previous |-> p, got |-> k]
 
@@ -121,7 +121,7 @@ ASound(A) == \A s \in 1..A.n :
 \* The stream: all in-range, accepted entries, in order.  `aut` is an Option.
 Selected(c, lo, hi, aut, i) ==
     /\ InRange(lo, hi, c[i][1])
-    /\ (aut # None => Accepts(aut[1], c[i][1]))
+    /\ (IF aut = None THEN TRUE ELSE Accepts(aut[1], c[i][1]))
 RangeSeq(c, lo, hi, aut) ==
     LET RECURSIVE F(_)
         F(i) == IF i > Len(c) THEN <<>>
@@ -135,8 +135,9 @@ NextOK(c, from, to, aut, pos, idx) ==
     LET stop == IF idx = 0 THEN to + 1 ELSE idx
         start == IF pos < from THEN from + 1 ELSE pos + 1
     IN  /\ (idx # 0 => idx >= start /\ idx <= to)
-        /\ \A i \in start..(stop - 1) : aut # None /\ ~Accepts(aut[1], c[i][1])
-        /\ (idx # 0 => (aut = None \/ Accepts(aut[1], c[idx][1])))
+        \* (IF, not \/: inside an action TLC explores both sides of a disjunction)
+        /\ \A i \in start..(stop - 1) : IF aut = None THEN FALSE ELSE ~Accepts(aut[1], c[i][1])
+        /\ (idx # 0 => (IF aut = None THEN TRUE ELSE Accepts(aut[1], c[idx][1])))
 
 ---------------------------------------------------------------------------
 (* C05: set operations over K inputs (each a content).  The merge table    *)
